@@ -76,6 +76,11 @@ POSITIONS = {
     "return_in_match_arm": (["f_ = |v_| -> {H}", "  match 1", "    1 then return v_", "    else v_", "f_({V})", "'ok'"], "assert"),
     "return_in_operand": (["f_ = |v_| -> {H}", "  y_ = [1, (if true then return v_ else v_)]", "  v_", "f_({V})", "'ok'"], "assert"),
     "return_in_block_if": (["f_ = |v_| -> {H}", "  y_ = if true", "    return v_", "  else", "    v_", "  y_", "f_({V})", "'ok'"], "assert"),
+    # a bare `return` and a body without a value return null: the output hint is checked against null (cells with the value null only)
+    "return_bare": (["f_ = |v_| -> {H}", "  return", "f_({V})", "'ok'"], "assert"),
+    "return_bare_in_if": (["f_ = |v_| -> {H}", "  if v_ == null", "    return", "  1", "f_({V})", "'ok'"], "assert"),
+    "return_bare_in_loop": (["f_ = |v_| -> {H}", "  for i_ in 0..2", "    if i_ == 1", "      return", "  1", "f_({V})", "'ok'"], "assert"),
+    "return_implicit_null": (["f_ = |v_| -> {H}", "  if v_ != null then 1", "f_({V})", "'ok'"], "assert"),
     "match_arm": (["match {V}", "  x_: {H} then 'ok'", "  else 'miss'"], "select"),
     "match_ignored": (["match {V}", "  _: {H} then 'ok'", "  else 'miss'"], "select"),
     "match_nested": (["match (0, {V})", "  (_, x_: {H}) then 'ok'", "  else 'miss'"], "select"),
@@ -104,6 +109,8 @@ def _grid_shard(shard, n, tier, seed, budget_s):
             for q in ("", "?"):
                 for v in sorted(VALUES):
                     if kind == "select-throw" and not VALUES[v][5]:
+                        continue
+                    if (pos.startswith("return_bare") or pos == "return_implicit_null") and v != "null":
                         continue
                     cells.append((pos, tmpl, kind, h + q, v))
     mine = [c for i, c in enumerate(cells) if i % n == shard]
